@@ -545,6 +545,9 @@ def _to_c_expr(
             )
 
         if isinstance(n, ast.BinOp) and type(n.op) in _BIN:
+            if isinstance(n.op, ast.Div):
+                # Python's ``/`` is true division even for two integers.
+                return f"(static_cast<float>({emit(n.left)}) / {emit(n.right)})"
             return f"({emit(n.left)} {_BIN[type(n.op)]} {emit(n.right)})"
 
         if isinstance(n, ast.UnaryOp) and type(n.op) in _UN:
@@ -1165,7 +1168,7 @@ def _infer_expr_type(
                 var_types[node.right.id] = "String"
                 right = "String"
             return "String"
-        if "float" in (left, right):
+        if "float" in (left, right) or isinstance(node.op, ast.Div):
             return "float"
         return "int"
 
@@ -1857,6 +1860,11 @@ def _handle_assignment_ast(
         )
         var_types[target.id] = inferred_type
         vars_env[target.id] = _ExprStr(target.id)
+        if isinstance(stmt.op, ast.Div):
+            nodes.append(
+                VarAssign(name=target.id, expr=f"(static_cast<float>({target.id}) / {rhs_c})")
+            )
+            return nodes
         nodes.append(VarAssign(name=target.id, expr=f"({target.id} {op_symbol} {rhs_c})"))
         return nodes
 
